@@ -18,3 +18,544 @@ package sam
 //@     invariant forall(j, i, len(seq), seq[j] == old(seq[j]))
 //@   ensures sameslice(result, seq)
 //@   ensures forall(j, 0, len(seq), seq[j] == ite(old(seq[j]) == '*', 'N', old(seq[j])))
+
+//@ # C01/C02: the CIGAR operator tables against the SAM specification: M,=,X consume query and reference; I,S consume
+//@ # the query only; D,N the reference only; H,P nothing. Emitted column characters: query base (M,=,X and, when
+//@ # insertions are kept, I), '-' for D, '*' for N; the reference row carries the reference base on reference-consuming
+//@ # operations and '-' exactly on kept insertions.
+//@ func getCigarOperationMapNoInsertions["M"]
+//@   requires length >= 0
+//@   requires query_start >= 0
+//@   requires ref_start >= 0
+//@   requires query_start + length <= len(seq)
+//@   ensures result1 == query_start + length
+//@   ensures result2 == ref_start + length
+//@   ensures len(result3) == length
+//@   ensures samearray(result3, seq)
+//@   ensures forall(j, 0, length, result3[j] == seq[query_start+j])
+//@ func getCigarOperationMapNoInsertions["I"]
+//@   requires length >= 0
+//@   requires query_start >= 0
+//@   requires ref_start >= 0
+//@   ensures result1 == query_start + length
+//@   ensures result2 == ref_start + 0
+//@   ensures len(result3) == 0
+//@ func getCigarOperationMapNoInsertions["D"]
+//@   requires length >= 0
+//@   requires query_start >= 0
+//@   requires ref_start >= 0
+//@   ensures result1 == query_start + 0
+//@   ensures result2 == ref_start + length
+//@   ensures len(result3) == length
+//@   ensures freshslice(result3)
+//@   ensures forall(j, 0, length, result3[j] == '-')
+//@ func getCigarOperationMapNoInsertions["N"]
+//@   requires length >= 0
+//@   requires query_start >= 0
+//@   requires ref_start >= 0
+//@   ensures result1 == query_start + 0
+//@   ensures result2 == ref_start + length
+//@   ensures len(result3) == length
+//@   ensures freshslice(result3)
+//@   ensures forall(j, 0, length, result3[j] == '*')
+//@ func getCigarOperationMapNoInsertions["S"]
+//@   requires length >= 0
+//@   requires query_start >= 0
+//@   requires ref_start >= 0
+//@   ensures result1 == query_start + length
+//@   ensures result2 == ref_start + 0
+//@   ensures len(result3) == 0
+//@ func getCigarOperationMapNoInsertions["H"]
+//@   requires length >= 0
+//@   requires query_start >= 0
+//@   requires ref_start >= 0
+//@   ensures result1 == query_start + 0
+//@   ensures result2 == ref_start + 0
+//@   ensures len(result3) == 0
+//@ func getCigarOperationMapNoInsertions["P"]
+//@   requires length >= 0
+//@   requires query_start >= 0
+//@   requires ref_start >= 0
+//@   ensures result1 == query_start + 0
+//@   ensures result2 == ref_start + 0
+//@   ensures len(result3) == 0
+//@ func getCigarOperationMapNoInsertions["="]
+//@   requires length >= 0
+//@   requires query_start >= 0
+//@   requires ref_start >= 0
+//@   requires query_start + length <= len(seq)
+//@   ensures result1 == query_start + length
+//@   ensures result2 == ref_start + length
+//@   ensures len(result3) == length
+//@   ensures samearray(result3, seq)
+//@   ensures forall(j, 0, length, result3[j] == seq[query_start+j])
+//@ func getCigarOperationMapNoInsertions["X"]
+//@   requires length >= 0
+//@   requires query_start >= 0
+//@   requires ref_start >= 0
+//@   requires query_start + length <= len(seq)
+//@   ensures result1 == query_start + length
+//@   ensures result2 == ref_start + length
+//@   ensures len(result3) == length
+//@   ensures samearray(result3, seq)
+//@   ensures forall(j, 0, length, result3[j] == seq[query_start+j])
+//@ func getCigarOperationMapWithInsertions["M"]
+//@   requires length >= 0
+//@   requires query_start >= 0
+//@   requires ref_start >= 0
+//@   requires query_start + length <= len(seq)
+//@   ensures result1 == query_start + length
+//@   ensures result2 == ref_start + length
+//@   ensures len(result3) == length
+//@   ensures samearray(result3, seq)
+//@   ensures forall(j, 0, length, result3[j] == seq[query_start+j])
+//@ func getCigarOperationMapWithInsertions["I"]
+//@   requires length >= 0
+//@   requires query_start >= 0
+//@   requires ref_start >= 0
+//@   requires query_start + length <= len(seq)
+//@   ensures result1 == query_start + length
+//@   ensures result2 == ref_start + 0
+//@   ensures len(result3) == length
+//@   ensures samearray(result3, seq)
+//@   ensures forall(j, 0, length, result3[j] == seq[query_start+j])
+//@ func getCigarOperationMapWithInsertions["D"]
+//@   requires length >= 0
+//@   requires query_start >= 0
+//@   requires ref_start >= 0
+//@   ensures result1 == query_start + 0
+//@   ensures result2 == ref_start + length
+//@   ensures len(result3) == length
+//@   ensures freshslice(result3)
+//@   ensures forall(j, 0, length, result3[j] == '-')
+//@ func getCigarOperationMapWithInsertions["N"]
+//@   requires length >= 0
+//@   requires query_start >= 0
+//@   requires ref_start >= 0
+//@   ensures result1 == query_start + 0
+//@   ensures result2 == ref_start + length
+//@   ensures len(result3) == length
+//@   ensures freshslice(result3)
+//@   ensures forall(j, 0, length, result3[j] == '*')
+//@ func getCigarOperationMapWithInsertions["S"]
+//@   requires length >= 0
+//@   requires query_start >= 0
+//@   requires ref_start >= 0
+//@   ensures result1 == query_start + length
+//@   ensures result2 == ref_start + 0
+//@   ensures len(result3) == 0
+//@ func getCigarOperationMapWithInsertions["H"]
+//@   requires length >= 0
+//@   requires query_start >= 0
+//@   requires ref_start >= 0
+//@   ensures result1 == query_start + 0
+//@   ensures result2 == ref_start + 0
+//@   ensures len(result3) == 0
+//@ func getCigarOperationMapWithInsertions["P"]
+//@   requires length >= 0
+//@   requires query_start >= 0
+//@   requires ref_start >= 0
+//@   ensures result1 == query_start + 0
+//@   ensures result2 == ref_start + 0
+//@   ensures len(result3) == 0
+//@ func getCigarOperationMapWithInsertions["="]
+//@   requires length >= 0
+//@   requires query_start >= 0
+//@   requires ref_start >= 0
+//@   requires query_start + length <= len(seq)
+//@   ensures result1 == query_start + length
+//@   ensures result2 == ref_start + length
+//@   ensures len(result3) == length
+//@   ensures samearray(result3, seq)
+//@   ensures forall(j, 0, length, result3[j] == seq[query_start+j])
+//@ func getCigarOperationMapWithInsertions["X"]
+//@   requires length >= 0
+//@   requires query_start >= 0
+//@   requires ref_start >= 0
+//@   requires query_start + length <= len(seq)
+//@   ensures result1 == query_start + length
+//@   ensures result2 == ref_start + length
+//@   ensures len(result3) == length
+//@   ensures samearray(result3, seq)
+//@   ensures forall(j, 0, length, result3[j] == seq[query_start+j])
+//@ func getCigarOperationMapNoInsertionsWithRef["M"]
+//@   requires length >= 0
+//@   requires query_start >= 0
+//@   requires ref_start >= 0
+//@   requires query_start + length <= len(seq)
+//@   requires ref_start + length <= len(refseq)
+//@   ensures result1 == query_start + length
+//@   ensures result2 == ref_start + length
+//@   ensures len(result3) == length
+//@   ensures samearray(result3, seq)
+//@   ensures samearray(result4, refseq)
+//@   ensures forall(j, 0, length, result3[j] == seq[query_start+j])
+//@   ensures len(result4) == len(result3)
+//@   ensures forall(j, 0, length, result4[j] == refseq[ref_start+j])
+//@ func getCigarOperationMapNoInsertionsWithRef["I"]
+//@   requires length >= 0
+//@   requires query_start >= 0
+//@   requires ref_start >= 0
+//@   ensures result1 == query_start + length
+//@   ensures result2 == ref_start + 0
+//@   ensures len(result3) == 0
+//@   ensures len(result4) == len(result3)
+//@ func getCigarOperationMapNoInsertionsWithRef["D"]
+//@   requires length >= 0
+//@   requires query_start >= 0
+//@   requires ref_start >= 0
+//@   requires ref_start + length <= len(refseq)
+//@   ensures result1 == query_start + 0
+//@   ensures result2 == ref_start + length
+//@   ensures len(result3) == length
+//@   ensures freshslice(result3)
+//@   ensures samearray(result4, refseq)
+//@   ensures forall(j, 0, length, result3[j] == '-')
+//@   ensures len(result4) == len(result3)
+//@   ensures forall(j, 0, length, result4[j] == refseq[ref_start+j])
+//@ func getCigarOperationMapNoInsertionsWithRef["N"]
+//@   requires length >= 0
+//@   requires query_start >= 0
+//@   requires ref_start >= 0
+//@   requires ref_start + length <= len(refseq)
+//@   ensures result1 == query_start + 0
+//@   ensures result2 == ref_start + length
+//@   ensures len(result3) == length
+//@   ensures freshslice(result3)
+//@   ensures samearray(result4, refseq)
+//@   ensures forall(j, 0, length, result3[j] == '*')
+//@   ensures len(result4) == len(result3)
+//@   ensures forall(j, 0, length, result4[j] == refseq[ref_start+j])
+//@ func getCigarOperationMapNoInsertionsWithRef["S"]
+//@   requires length >= 0
+//@   requires query_start >= 0
+//@   requires ref_start >= 0
+//@   ensures result1 == query_start + length
+//@   ensures result2 == ref_start + 0
+//@   ensures len(result3) == 0
+//@   ensures len(result4) == len(result3)
+//@ func getCigarOperationMapNoInsertionsWithRef["H"]
+//@   requires length >= 0
+//@   requires query_start >= 0
+//@   requires ref_start >= 0
+//@   ensures result1 == query_start + 0
+//@   ensures result2 == ref_start + 0
+//@   ensures len(result3) == 0
+//@   ensures len(result4) == len(result3)
+//@ func getCigarOperationMapNoInsertionsWithRef["P"]
+//@   requires length >= 0
+//@   requires query_start >= 0
+//@   requires ref_start >= 0
+//@   ensures result1 == query_start + 0
+//@   ensures result2 == ref_start + 0
+//@   ensures len(result3) == 0
+//@   ensures len(result4) == len(result3)
+//@ func getCigarOperationMapNoInsertionsWithRef["="]
+//@   requires length >= 0
+//@   requires query_start >= 0
+//@   requires ref_start >= 0
+//@   requires query_start + length <= len(seq)
+//@   requires ref_start + length <= len(refseq)
+//@   ensures result1 == query_start + length
+//@   ensures result2 == ref_start + length
+//@   ensures len(result3) == length
+//@   ensures samearray(result3, seq)
+//@   ensures samearray(result4, refseq)
+//@   ensures forall(j, 0, length, result3[j] == seq[query_start+j])
+//@   ensures len(result4) == len(result3)
+//@   ensures forall(j, 0, length, result4[j] == refseq[ref_start+j])
+//@ func getCigarOperationMapNoInsertionsWithRef["X"]
+//@   requires length >= 0
+//@   requires query_start >= 0
+//@   requires ref_start >= 0
+//@   requires query_start + length <= len(seq)
+//@   requires ref_start + length <= len(refseq)
+//@   ensures result1 == query_start + length
+//@   ensures result2 == ref_start + length
+//@   ensures len(result3) == length
+//@   ensures samearray(result3, seq)
+//@   ensures samearray(result4, refseq)
+//@   ensures forall(j, 0, length, result3[j] == seq[query_start+j])
+//@   ensures len(result4) == len(result3)
+//@   ensures forall(j, 0, length, result4[j] == refseq[ref_start+j])
+//@ func getCigarOperationMapWithInsertionsWithRef["M"]
+//@   requires length >= 0
+//@   requires query_start >= 0
+//@   requires ref_start >= 0
+//@   requires query_start + length <= len(seq)
+//@   requires ref_start + length <= len(refseq)
+//@   ensures result1 == query_start + length
+//@   ensures result2 == ref_start + length
+//@   ensures len(result3) == length
+//@   ensures samearray(result3, seq)
+//@   ensures samearray(result4, refseq)
+//@   ensures forall(j, 0, length, result3[j] == seq[query_start+j])
+//@   ensures len(result4) == len(result3)
+//@   ensures forall(j, 0, length, result4[j] == refseq[ref_start+j])
+//@ func getCigarOperationMapWithInsertionsWithRef["I"]
+//@   requires length >= 0
+//@   requires query_start >= 0
+//@   requires ref_start >= 0
+//@   requires query_start + length <= len(seq)
+//@   ensures result1 == query_start + length
+//@   ensures result2 == ref_start + 0
+//@   ensures len(result3) == length
+//@   ensures samearray(result3, seq)
+//@   ensures freshslice(result4)
+//@   ensures forall(j, 0, length, result3[j] == seq[query_start+j])
+//@   ensures len(result4) == len(result3)
+//@   ensures forall(j, 0, length, result4[j] == '-')
+//@ func getCigarOperationMapWithInsertionsWithRef["D"]
+//@   requires length >= 0
+//@   requires query_start >= 0
+//@   requires ref_start >= 0
+//@   requires ref_start + length <= len(refseq)
+//@   ensures result1 == query_start + 0
+//@   ensures result2 == ref_start + length
+//@   ensures len(result3) == length
+//@   ensures freshslice(result3)
+//@   ensures samearray(result4, refseq)
+//@   ensures forall(j, 0, length, result3[j] == '-')
+//@   ensures len(result4) == len(result3)
+//@   ensures forall(j, 0, length, result4[j] == refseq[ref_start+j])
+//@ func getCigarOperationMapWithInsertionsWithRef["N"]
+//@   requires length >= 0
+//@   requires query_start >= 0
+//@   requires ref_start >= 0
+//@   requires ref_start + length <= len(refseq)
+//@   ensures result1 == query_start + 0
+//@   ensures result2 == ref_start + length
+//@   ensures len(result3) == length
+//@   ensures freshslice(result3)
+//@   ensures samearray(result4, refseq)
+//@   ensures forall(j, 0, length, result3[j] == '*')
+//@   ensures len(result4) == len(result3)
+//@   ensures forall(j, 0, length, result4[j] == refseq[ref_start+j])
+//@ func getCigarOperationMapWithInsertionsWithRef["S"]
+//@   requires length >= 0
+//@   requires query_start >= 0
+//@   requires ref_start >= 0
+//@   ensures result1 == query_start + length
+//@   ensures result2 == ref_start + 0
+//@   ensures len(result3) == 0
+//@   ensures len(result4) == len(result3)
+//@ func getCigarOperationMapWithInsertionsWithRef["H"]
+//@   requires length >= 0
+//@   requires query_start >= 0
+//@   requires ref_start >= 0
+//@   ensures result1 == query_start + 0
+//@   ensures result2 == ref_start + 0
+//@   ensures len(result3) == 0
+//@   ensures len(result4) == len(result3)
+//@ func getCigarOperationMapWithInsertionsWithRef["P"]
+//@   requires length >= 0
+//@   requires query_start >= 0
+//@   requires ref_start >= 0
+//@   ensures result1 == query_start + 0
+//@   ensures result2 == ref_start + 0
+//@   ensures len(result3) == 0
+//@   ensures len(result4) == len(result3)
+//@ func getCigarOperationMapWithInsertionsWithRef["="]
+//@   requires length >= 0
+//@   requires query_start >= 0
+//@   requires ref_start >= 0
+//@   requires query_start + length <= len(seq)
+//@   requires ref_start + length <= len(refseq)
+//@   ensures result1 == query_start + length
+//@   ensures result2 == ref_start + length
+//@   ensures len(result3) == length
+//@   ensures samearray(result3, seq)
+//@   ensures samearray(result4, refseq)
+//@   ensures forall(j, 0, length, result3[j] == seq[query_start+j])
+//@   ensures len(result4) == len(result3)
+//@   ensures forall(j, 0, length, result4[j] == refseq[ref_start+j])
+//@ func getCigarOperationMapWithInsertionsWithRef["X"]
+//@   requires length >= 0
+//@   requires query_start >= 0
+//@   requires ref_start >= 0
+//@   requires query_start + length <= len(seq)
+//@   requires ref_start + length <= len(refseq)
+//@   ensures result1 == query_start + length
+//@   ensures result2 == ref_start + length
+//@   ensures len(result3) == length
+//@   ensures samearray(result3, seq)
+//@   ensures samearray(result4, refseq)
+//@   ensures forall(j, 0, length, result3[j] == seq[query_start+j])
+//@   ensures len(result4) == len(result3)
+//@   ensures forall(j, 0, length, result4[j] == refseq[ref_start+j])
+
+//@ spec consQ(k string) bool = k == "M" || k == "=" || k == "X" || k == "I" || k == "S"
+//@ spec consR(k string) bool = k == "M" || k == "=" || k == "X" || k == "D" || k == "N"
+//@ spec validOp(k string) bool = k == "M" || k == "I" || k == "D" || k == "N" || k == "S" || k == "H" || k == "P" || k == "=" || k == "X"
+//@ # input validity of one SAM record, as abstract predicates: only the nine SAM operations; every prefix of the CIGAR
+//@ # consumes at most seqlen query bases; every prefix ends at or before reference position reflen
+//@ pred validCigar(c biogosam.Cigar) = forall(k, 0, len(c), validOp(opkind(c[k])))
+//@ pred cigarFitsQ(c biogosam.Cigar, seqlen int) = forall(m, 0, len(c) + 1, sum(k, 0, m, ite(consQ(opkind(c[k])), oplen(c[k]), 0)) <= seqlen)
+//@ pred cigarFitsR(c biogosam.Cigar, pos int, reflen int) = forall(m, 0, len(c) + 1, pos + sum(k, 0, m, ite(consR(opkind(c[k])), oplen(c[k]), 0)) <= reflen)
+
+//@ # getOneLine: the CIGAR walk. Input validity (assumptions about the SAM record, stated as preconditions): the nine SAM
+//@ # operations only; every prefix of the CIGAR consumes at most len(SEQ) query bases and, without insertions, ends at or
+//@ # before the reference end. Ghost-free: qstart / rstart are pinned to the SAM-spec prefix sums; each appended segment is
+//@ # asserted, where it is appended, to be the SAM-spec projection of that operation; leading positions are '*'.
+//@ func getOneLine
+//@   requires refLen >= 0
+//@   requires validCigar(samLine.Cigar)
+//@   requires cigarFitsQ(samLine.Cigar, samLine.Seq.Length)
+//@   requires implies(!includeInsertions, cigarFitsR(samLine.Cigar, samLine.Pos, refLen))
+//@   loop 2:
+//@     invariant qstart == sum(k, 0, range_i, ite(consQ(opkind(samLine.Cigar[k])), oplen(samLine.Cigar[k]), 0)) && qstart >= 0
+//@     invariant rstart == POS + sum(k, 0, range_i, ite(consR(opkind(samLine.Cigar[k])), oplen(samLine.Cigar[k]), 0)) && rstart >= POS
+//@     invariant implies(!includeInsertions, len(newSeqArray) == rstart)
+//@     invariant len(newSeqArray) >= POS && forall(j, 0, POS, newSeqArray[j] == '*') && freshslice(newSeqArray) && len(SEQ) == samLine.Seq.Length
+//@   before call:String#1: assert [prefix] sum(k, 0, range_i + 1, ite(consQ(opkind(samLine.Cigar[k])), oplen(samLine.Cigar[k]), 0)) <= samLine.Seq.Length && implies(!includeInsertions, samLine.Pos + sum(k, 0, range_i + 1, ite(consR(opkind(samLine.Cigar[k])), oplen(samLine.Cigar[k]), 0)) <= refLen)
+//@   after append#1: assert [column.query] implies(consQ(operation) && (consR(operation) || (includeInsertions && operation == "I")), len(newSeqArray) >= size && forall(j, 0, size, newSeqArray[len(newSeqArray) - size + j] == SEQ[qstart + j]))
+//@   after append#1: assert [column.del] implies(operation == "D", len(newSeqArray) >= size && forall(j, 0, size, newSeqArray[len(newSeqArray) - size + j] == '-'))
+//@   after append#1: assert [column.skip] implies(operation == "N", len(newSeqArray) >= size && forall(j, 0, size, newSeqArray[len(newSeqArray) - size + j] == '*'))
+//@   ensures (result2 != nil) == (samLine.Pos < 0)
+//@   ensures [length] implies(result2 == nil && !includeInsertions, len(result1) == refLen)
+//@   ensures [fresh] freshslice(result1)
+//@   ensures [leading] implies(result2 == nil, len(result1) >= samLine.Pos && forall(j, 0, samLine.Pos, result1[j] == '*'))
+//@   ensures [trailing] implies(result2 == nil && !includeInsertions, forall(j, samLine.Pos + sum(k, 0, len(samLine.Cigar), ite(consR(opkind(samLine.Cigar[k])), oplen(samLine.Cigar[k]), 0)), refLen, result1[j] == '*'))
+
+//@ # getOneLinePlusRef: as getOneLine with a reference row: equal lengths throughout; each appended segment of the reference
+//@ # row is the reference itself on reference-consuming operations and '-' on kept insertions; leading columns copy the reference.
+//@ func getOneLinePlusRef
+//@   requires validCigar(samLine.Cigar)
+//@   requires samLine.Pos <= len(reference)
+//@   requires cigarFitsQ(samLine.Cigar, samLine.Seq.Length)
+//@   requires cigarFitsR(samLine.Cigar, samLine.Pos, len(reference))
+//@   loop 2:
+//@     invariant forall(j, 0, i, newRefSeqArray[j] == reference[j]) && len(newRefSeqArray) == POS && freshslice(newRefSeqArray) && freshslice(newSeqArray) && disjoint(newSeqArray, newRefSeqArray) && forall(j, 0, POS, newSeqArray[j] == '*')
+//@   loop 3:
+//@     invariant qstart == sum(k, 0, range_i, ite(consQ(opkind(samLine.Cigar[k])), oplen(samLine.Cigar[k]), 0)) && qstart >= 0
+//@     invariant rstart == POS + sum(k, 0, range_i, ite(consR(opkind(samLine.Cigar[k])), oplen(samLine.Cigar[k]), 0)) && rstart >= POS
+//@     invariant len(newSeqArray) == len(newRefSeqArray) && implies(!includeInsertions, len(newSeqArray) == rstart)
+//@     invariant len(newSeqArray) >= POS && forall(j, 0, POS, newSeqArray[j] == '*' && newRefSeqArray[j] == reference[j])
+//@     invariant freshslice(newSeqArray) && freshslice(newRefSeqArray) && disjoint(newSeqArray, newRefSeqArray) && disjoint(newSeqArray, SEQ) && disjoint(newRefSeqArray, SEQ) && freshslice(SEQ) && len(SEQ) == samLine.Seq.Length
+//@   before call:String#1: assert [prefix] sum(k, 0, range_i + 1, ite(consQ(opkind(samLine.Cigar[k])), oplen(samLine.Cigar[k]), 0)) <= samLine.Seq.Length && samLine.Pos + sum(k, 0, range_i + 1, ite(consR(opkind(samLine.Cigar[k])), oplen(samLine.Cigar[k]), 0)) <= len(reference)
+//@   after append#2: assert [column.query] implies(consQ(operation) && (consR(operation) || (includeInsertions && operation == "I")), len(newSeqArray) >= size && forall(j, 0, size, newSeqArray[len(newSeqArray) - size + j] == SEQ[qstart + j]))
+//@   after append#2: assert [column.ref] implies(consR(operation), len(newRefSeqArray) >= size && forall(j, 0, size, newRefSeqArray[len(newRefSeqArray) - size + j] == reference[rstart + j]))
+//@   after append#2: assert [column.ins] implies(includeInsertions && operation == "I", len(newRefSeqArray) >= size && forall(j, 0, size, newRefSeqArray[len(newRefSeqArray) - size + j] == '-'))
+//@   after append#2: assert [column.del] implies(operation == "D", forall(j, 0, size, newSeqArray[len(newSeqArray) - size + j] == '-'))
+//@   ensures (result3 != nil) == (samLine.Pos < 0)
+//@   ensures [rows] implies(result3 == nil && includeInsertions, len(result1) == len(result2))
+//@   ensures [leading] implies(result3 == nil, len(result1) >= samLine.Pos && len(result2) >= samLine.Pos && forall(j, 0, samLine.Pos, result1[j] == '*' && result2[j] == reference[j]))
+
+//@ # flattening one alignment column of a multi-record query
+//@ spec isLetterB(b byte) bool = (b >= 'A' && b <= 'Z') || (b >= 'a' && b <= 'z')
+//@ func getSetFromSlice
+//@   loop 1:
+//@     invariant forallb(b, in(m, b) == exists(j, 0, range_i, s[j] == b)) && forallb(b, implies(in(m, b), m[b]))
+//@   loop 2:
+//@     invariant len(s_out) == range_i && forall(j, 0, range_i, s_out[j] == mapkey(j)) && freshslice(s_out)
+//@   before return#1: assert [hint.enum] forall(t, 0, len(s), 0 <= mapidx(s[t]) && mapidx(s[t]) < len(m) && mapkey(mapidx(s[t])) == s[t] && s_out[mapidx(s[t])] == s[t])
+//@   ensures [members] forall(j, 0, len(result), exists(t, 0, len(s), s[t] == result[j]))
+//@   ensures [complete] forall(t, 0, len(s), exists(j, 0, len(result), result[j] == s[t]))
+//@   ensures [distinct] forall(a, 0, len(result), forall(b, a + 1, len(result), result[a] != result[b]))
+
+//@ # getNucFromSite (property C01): two different letters at a site give 'N'; otherwise the maximum byte of the site, so a
+//@ # base (letter) beats a deletion '-' (45) beats no coverage '*' (42). gFirst / gSecond are ghost witnesses of letters found.
+//@ func getNucFromSite
+//@   requires len(s) >= 1
+//@   ghost gFirst int = 0
+//@   ghost gSecond int = 0
+//@   loop 1:
+//@     invariant 0 <= check && check <= range_i
+//@     invariant implies(check == 0, forall(j, 0, range_i, !isLetterB(ss[j])))
+//@     invariant implies(check == 1, 0 <= gFirst && gFirst < range_i && isLetterB(ss[gFirst]) && forall(j, 0, range_i, j == gFirst || !isLetterB(ss[j])))
+//@     invariant implies(check >= 2, 0 <= gFirst && gFirst < gSecond && gSecond < range_i && isLetterB(ss[gFirst]) && isLetterB(ss[gSecond]))
+//@     do-end if isLetterB(ss[range_i]) { if check == 1 { gFirst = range_i } else { if check == 2 { gSecond = range_i } } }
+//@   loop 2:
+//@     invariant implies(i > 0, exists(j, 0, i, ss[j] == m) && forall(j, 0, i, ss[j] <= m))
+//@   ensures [conflict] implies(exists(a, 0, len(s), exists(b, 0, len(s), isLetterB(s[a]) && isLetterB(s[b]) && s[a] != s[b])), result == 'N')
+//@   ensures [max] implies(!exists(a, 0, len(s), exists(b, 0, len(s), isLetterB(s[a]) && isLetterB(s[b]) && s[a] != s[b])), forall(j, 0, len(s), s[j] <= result) && exists(j, 0, len(s), s[j] == result))
+
+//@ # checkAndGetFlattenedSeq: column-wise flattening of k records of equal length. Proved: length, and that a column with
+//@ # two different letters becomes 'N'. The 'otherwise the maximum of the column' half (proved for getNucFromSite on one
+//@ # site) did not transfer through the per-row offsets within the time limit and is not claimed at this level.
+//@ func checkAndGetFlattenedSeq
+//@   requires len(block) >= 1 && forall(i, 0, len(block), len(block[i]) == len(block[0]))
+//@   loop 1:
+//@     invariant len(seq) == len(block[0]) && len(site) == len(block) && freshslice(seq) && freshslice(site) && disjoint(seq, site)
+//@     invariant forall(c, 0, j, implies(exists(a, 0, len(block), exists(b, 0, len(block), isLetterB(block[a][c]) && isLetterB(block[b][c]) && block[a][c] != block[b][c])), seq[c] == 'N'))
+//@   loop 2:
+//@     invariant len(site) == len(block) && forall(r, 0, i, site[r] == block[r][j]) && freshslice(site) && freshslice(seq) && disjoint(seq, site)
+//@   ensures len(result) == len(block[0]) && freshslice(result)
+//@   ensures [conflict] forall(c, 0, len(block[0]), implies(exists(a, 0, len(block), exists(b, 0, len(block), isLetterB(block[a][c]) && isLetterB(block[b][c]) && block[a][c] != block[b][c])), result[c] == 'N'))
+
+//@ # swapInGapsNs (C01): uncovered positions ('*') become '-' outside the first/last aligned base and 'N' between them;
+//@ # everything else is unchanged. gHas / gFirst / gLast are the specification's "first and last letter" of the input.
+//@ func swapInGapsNs
+//@   modifies seq
+//@   loop 1:
+//@     invariant firstLetter == !exists(j, 0, i, isLetterB(seq[j]))
+//@     invariant implies(!firstLetter, 0 <= firstLetterIndx && firstLetterIndx <= lastLetterIndx && lastLetterIndx < i && isLetterB(seq[firstLetterIndx]) && isLetterB(seq[lastLetterIndx]) && forall(j, 0, firstLetterIndx, !isLetterB(seq[j])) && forall(j, lastLetterIndx + 1, i, !isLetterB(seq[j])))
+//@     invariant implies(firstLetter, firstLetterIndx == 0 && lastLetterIndx == 0)
+//@     invariant forall(j, 0, len(seq), seq[j] == old(seq[j]))
+//@   loop 2:
+//@     invariant forall(j, i, len(seq), seq[j] == old(seq[j]))
+//@     invariant forall(j, 0, i, seq[j] == ite(old(seq[j]) == '*', byte('-'), old(seq[j])))
+//@   loop 3:
+//@     invariant forall(j, i, len(seq), seq[j] == old(seq[j]))
+//@     invariant forall(j, 0, i, implies(old(seq[j]) != '*', seq[j] == old(seq[j])))
+//@     invariant forall(j, 0, i, implies(old(seq[j]) == '*', seq[j] == ite(j < firstLetterIndx || j > lastLetterIndx, byte('-'), byte('N'))))
+//@   ensures sameslice(result, seq)
+//@   ensures [kept] forall(j, 0, len(seq), implies(old(seq[j]) != '*', seq[j] == old(seq[j])))
+//@   ensures [noletters] implies(!exists(j, 0, len(seq), isLetterB(old(seq[j]))), forall(j, 0, len(seq), implies(old(seq[j]) == '*', seq[j] == '-')))
+//@   ensures [flanks] forall(j, 0, len(seq), implies(old(seq[j]) == '*' && (forall(k, 0, j, !isLetterB(old(seq[k]))) || forall(k, j + 1, len(seq), !isLetterB(old(seq[k])))), seq[j] == '-'))
+//@   ensures [internal] forall(j, 0, len(seq), implies(old(seq[j]) == '*' && exists(k, 0, j, isLetterB(old(seq[k]))) && exists(k, j + 1, len(seq), isLetterB(old(seq[k]))), seq[j] == 'N'))
+
+//@ # getFastaRecord (C15/C01): windowing after flank rewriting. U = the untrimmed row (swapInGapsNs resp. swapInNs of the
+//@ # raw row). trim && !pad: Seq = U[trimstart-1 : trimend]; trim && pad: everything outside the window is 'N'; !trim: U.
+//@ func getFastaRecord
+//@   modifies rawseq
+//@   requires implies(trim, 1 <= trimstart && trimstart <= trimend && trimend <= len(rawseq))
+//@   loop 1:
+//@     invariant sameslice(seq, rawseq) && forall(j, i, len(seq), seq[j] == ite(old(rawseq[j]) == '*', byte('N'), old(rawseq[j])))
+//@     invariant forall(j, 0, i, seq[j] == ite(j < trimstart-1 || j >= trimend, byte('N'), ite(old(rawseq[j]) == '*', byte('N'), old(rawseq[j]))))
+//@   ensures result.ID == id && result.Description == id && result.Idx == idx
+//@   ensures [len] len(result.Seq) == ite(trim && !pad, trimend - trimstart + 1, len(rawseq))
+//@   ensures [pad] implies(pad, forall(j, 0, len(rawseq), result.Seq[j] == ite(trim && (j < trimstart-1 || j >= trimend), byte('N'), ite(old(rawseq[j]) == '*', byte('N'), old(rawseq[j])))))
+//@   ensures [nopad.kept] implies(!pad, forall(j, 0, len(result.Seq), implies(old(rawseq[j + ite(trim, trimstart-1, 0)]) != '*', result.Seq[j] == old(rawseq[j + ite(trim, trimstart-1, 0)]))))
+//@   ensures [nopad.fill] implies(!pad, forall(j, 0, len(result.Seq), implies(old(rawseq[j + ite(trim, trimstart-1, 0)]) == '*', result.Seq[j] == '-' || result.Seq[j] == 'N')))
+
+//@ # getSeqFromBlock: one row per record via getOneLine, flattened when there are several
+//@ func getSeqFromBlock
+//@   requires len(records) >= 1 && refLen >= 0
+//@   requires forall(r, 0, len(records), validCigar(records[r].Cigar) && cigarFitsQ(records[r].Cigar, records[r].Seq.Length) && cigarFitsR(records[r].Cigar, records[r].Pos, refLen))
+//@   requires !includeInsertions
+//@   loop 1:
+//@     invariant len(block) == len(records) && freshslice(block) && forall(r, 0, i, len(block[r]) == refLen && freshslice(block[r]))
+//@   loop 2:
+//@     invariant len(block) == len(records) && freshslice(block) && forall(r, 0, range_i, len(block[r]) == refLen) && forall(r, range_i, len(block), len(block[r]) == refLen) && forall(r, 0, range_i, records[r].Pos >= 0) && forall(r, 0, len(block), freshslice(block[r]))
+//@   ensures [err] (result2 != nil) == exists(r, 0, len(records), records[r].Pos < 0)
+//@   ensures [len] implies(result2 == nil, len(result1) == refLen)
+//@   ensures [fresh] freshslice(result1)
+
+//@ # blockToFastaRecord (C01/C12): one FASTA record per block, carrying the block's input index and the first record's name
+//@ func blockToFastaRecord
+//@   modifies ch_out, ch_err
+//@   requires refLen >= 0 && !includeInsertions
+//@   requires implies(trim, 1 <= trimstart && trimstart <= trimend && trimend <= refLen)
+//@   requires forall(t, 0, len(recv(ch_in)), len(recv(ch_in)[t].records) >= 1)
+//@   requires forall(t, 0, len(recv(ch_in)), forall(r, 0, len(recv(ch_in)[t].records), recv(ch_in)[t].records[r].Pos >= 0 && validCigar(recv(ch_in)[t].records[r].Cigar) && cigarFitsQ(recv(ch_in)[t].records[r].Cigar, recv(ch_in)[t].records[r].Seq.Length) && cigarFitsR(recv(ch_in)[t].records[r].Cigar, recv(ch_in)[t].records[r].Pos, refLen)))
+//@   loop 1:
+//@     invariant len(sent(ch_out)) == range_i
+//@     invariant forall(t, 0, range_i, sent(ch_out)[t].Idx == recv(ch_in)[t].idx)
+//@   ensures len(sent(ch_out)) == len(recv(ch_in)) && forall(t, 0, len(recv(ch_in)), sent(ch_out)[t].Idx == recv(ch_in)[t].idx)
+
+//@ # groupSamRecords (C01/C12/C18): sweep + grouping facts
+//@ func groupSamRecords
+//@   modifies cHeader, chnl, cdone, cerr
+//@   ghost gKept int = 0
+//@   loop 1:
+//@     invariant len(sent(cdone)) == 0 && counter == len(sent(chnl)) && samLineGroup.idx == counter && counter >= 0
+//@     invariant first == (len(samLineGroup.records) == 0) && implies(first, counter == 0)
+//@     invariant forall(r, 0, len(samLineGroup.records), samLineGroup.records[r].Name == previous)
+//@     invariant forall(t, 0, len(sent(chnl)), sent(chnl)[t].idx == t && len(sent(chnl)[t].records) >= 1)
+//@   after append#1: assert [kept.1] ((rec.Flags >> 2) & 1) != 1 && ((rec.Flags >> 8) & 1) != 1
+//@   after append#2: assert [kept.2] ((rec.Flags >> 2) & 1) != 1 && ((rec.Flags >> 8) & 1) != 1
+//@   after append#3: assert [kept.3] ((rec.Flags >> 2) & 1) != 1 && ((rec.Flags >> 8) & 1) != 1
+//@   before send#4: assert [block] samLineGroup.idx == len(sent(chnl)) && len(samLineGroup.records) >= 1 && forall(r, 0, len(samLineGroup.records), samLineGroup.records[r].Name == previous) && rec.Name != previous
+//@   ensures [c18.reader] implies(len(sent(cHeader)) == 0, len(sent(cerr)) >= 1 && len(sent(cdone)) == 0 && len(sent(chnl)) == 0)
+//@   ensures [idx] forall(t, 0, len(sent(chnl)), sent(chnl)[t].idx == t && len(sent(chnl)[t].records) >= 1)
